@@ -72,10 +72,9 @@ def sequencing_runs(tier, seed, tail):
         if 'lose' in sc or 'lose_at_req' in sc or len(scs) % 3 == 0:
             scs.append(sc)
     scs += [sk.gen_stop_scenario(rnd) for _ in range(n // 3)]
-    traces = sk.run_scenarios(scs)
     v = vlib.Verdict('C08', tier, seed)
-    sk.judge(v, traces, scs, [], ['C08.Progress'], tag='seq08')
-    SEQ_RESULTS.append((v, len(traces), sum(len(t['steps']) for t in traces)))
+    _, n_tr, n_st = sk.run_and_judge(v, scs, [], ['C08.Progress'], tag='seq08')
+    SEQ_RESULTS.append((v, n_tr, n_st))
     return []
 
 
@@ -119,6 +118,6 @@ def main(tier, seed, replay=None):
         rnd += [cl.Config(n=3, crash=2, restart=2, cut=1, core=(1, 2), sync=('CORE', 'TIMEOUT'), fail='RESYNC')]
     return cc.run('C08', tier, seed, [], TERMINAL, e1, ['TerminalC08', 'NoRefusedForever'], [], sim, rnd,
                   n_beh=48 if q else 400, beh_depth=150, n_rnd=40 if q else 400, rnd_steps=250,
-                  e1_timeout=600 if q else 2400, inject=False, extra_scenarios=[conflict_scenarios, sequencing_runs, oneway_two_instances],
+                  e1_timeout=600 if q else 1500, inject=False, extra_scenarios=[conflict_scenarios, sequencing_runs, oneway_two_instances],
                   notes=['start/stop jobs are abstracted in Cluster.tla (the Master may be held in DISTRIBUTION); '
                          'job termination itself is C10'])
